@@ -339,6 +339,17 @@ def run(check, mirror, tier):
     ops.jobs_for(check, mirror, rb, crate_fe, None, fv_.Universe(mirror), jobs, tier, KNOWN_PRED, select={"function_positional_job"})
     run_parallel(check, jobs)
 
+    # --- K: the lexer's escape decoding never panics (the harnesses of C06 assert the denoted scalar; a panic fails them too) -----------
+    from checks import C06 as c06
+    kf = prepare_k_file(check, mirror, "parser_lexer.rs")
+    mirror.inject("feel-parser/src/lexer.rs", kf, "verif_k")
+    check.bounds.append("K: every pair \\uD8xx..DBxx \\uXXXX of escapes in a string literal (surrogate pairs and their malformed neighbours), unwind 16 with unwinding assertions")
+    specs = [dict(harness="k_unicode_surrogates", timeout=2400, unwind=16, decode=c06.dec_pair, replay=c06.replay_escape)]
+    if tier == "thorough":
+        specs += [dict(harness="k_unicode_bmp", timeout=1500, unwind=8, decode=c06.dec_bmp, replay=c06.replay_escape),
+                  dict(harness="k_unicode_long", timeout=2400, unwind=8, decode=c06.dec_long, replay=c06.replay_escape)]
+    run_k(check, mirror, "dmntk-feel-parser", specs, par=3, rb=rb)
+
 
 # ----------------------------------------------------------------------------- native replay (dev profile checks overflow, release wraps)
 
